@@ -375,6 +375,7 @@ func checkReflect(w *World, r *Report) {
 	r.Counts["functions using kind-sensitive reflection"] = len(perFn)
 
 	checkReflectSet(w, r, reach)
+	checkMapKeys(w, r, reach)
 }
 
 // reflectGuarded returns a non-empty justification if the site's precondition is established.
